@@ -287,10 +287,10 @@ func c19ConnMsgs() []c19ReqMsg {
 	for t := 1; t < len(c19ReqTrailers); t++ {
 		vary(func(m *c19ReqMsg) { m.Method, m.Body, m.Trailer = "POST", 1, t })
 	}
-	vary(func(m *c19ReqMsg) { m.Method, m.Body, m.Trailer, m.Hdr = "PUT", 1, 3, []int{4} })                    // big-8k, trailers
-	vary(func(m *c19ReqMsg) { m.Method, m.Proto, m.URL, m.Hdr = "CONNECT", "webtransport", 1, []int{1} })       // extended CONNECT with a field
-	vary(func(m *c19ReqMsg) { m.URL, m.Host, m.Hdr, m.NoGzip = 2, c19ReqHosts[1], []int{3}, true })            // cookies, other authority
-	vary(func(m *c19ReqMsg) { m.Method, m.Body, m.Trailer, m.Hdr = "POST", 2, 1, []int{22} })                  // invalid field name: refused
+	vary(func(m *c19ReqMsg) { m.Method, m.Body, m.Trailer, m.Hdr = "PUT", 1, 3, []int{4} })               // big-8k, trailers
+	vary(func(m *c19ReqMsg) { m.Method, m.Proto, m.URL, m.Hdr = "CONNECT", "webtransport", 1, []int{1} }) // extended CONNECT with a field
+	vary(func(m *c19ReqMsg) { m.URL, m.Host, m.Hdr, m.NoGzip = 2, c19ReqHosts[1], []int{3}, true })       // cookies, other authority
+	vary(func(m *c19ReqMsg) { m.Method, m.Body, m.Trailer, m.Hdr = "POST", 2, 1, []int{22} })             // invalid field name: refused
 	return l
 }
 
